@@ -21,7 +21,7 @@ from vf.refs import engine_model as em
 REAL_GENS = ("ctxdec", "nest", "layer", "seedmut", "soup", "url", "cmd", "matryoshka")
 
 
-def plan(pid, tier, seed, exh=True, real=True, rand=True):
+def plan(pid, tier, seed, exh=True, real=True, rand=True, stride3=6):
     quick = tier == "quick"
     shards = []
     if exh:
@@ -30,7 +30,7 @@ def plan(pid, tier, seed, exh=True, real=True, rand=True):
         for i in range(nsh):
             # [n_text, n_hits, stride]: stride 1 = complete enumeration, stride s = every s-th configuration
             shards.append({"name": f"exh3-{i}", "gen": "synth-exh",
-                           "scopes": [[1, 3, 1], [2, 3, 1], [3, 3, 6 if quick else 1]] + ([] if quick else [[4, 3, 3]]),
+                           "scopes": [[1, 3, 1], [2, 3, 1], [3, 3, stride3 if quick else 1]] + ([] if quick else [[4, 3, 3]]),
                            "shard": i, "nshards": nsh})
         shards.append({"name": "exh-small", "gen": "synth-exh",
                        "scopes": [[1, 0, 1], [1, 1, 1], [2, 1, 1], [3, 1, 1], [4, 1, 1], [1, 2, 1], [2, 2, 1], [3, 2, 1], [4, 2, 1]],
